@@ -309,6 +309,10 @@ func famC16(rn *Runner) {
 			// nesting beyond the initial capacity of any stack (8, 16, 32, 64 and their neighbours)
 			vals = []*JVal{deepJ(r, pick(r, []int{7, 8, 9, 15, 16, 17, 31, 32, 33, 63, 64, 65, 70}))}
 		}
+		if deep := []int{127, 128, 129, 255, 256, 257, 511, 512, 513, 600, 1023, 1024, 1025, 2049}; i%60 == 31 && i/60 < len(deep) {
+			// and beyond any limit a reader might think generous (every run, the same depths)
+			vals = []*JVal{deepJ(r, deep[i/60])}
+		}
 		var b strings.Builder
 		var sx, want []string
 		for k, v := range vals {
